@@ -47,3 +47,18 @@ Inductive guard_shape :=
 | GuardNotEnabledAndRequired (status : nat)   (* if !s.tlsEnabled && s.tlsRequired { ... WriteHeader(status) ...; return } *)
 | GuardReqNeAndNotTLS (c : string)            (* if opts.TLSRequired != c && client.TLS != 1 { return fatal } *)
 | GuardOther (src : string).
+
+(* the condition under which nsqd.New creates an HTTP listener *)
+Inductive lexp :=
+| LAddr (opt : string)          (* opts.<opt> != "" *)
+| LTlsAndAddr (opt : string)    (* n.tlsConfig != nil && opts.<opt> != "" *)
+| LOther (src : string).
+
+(* one assignment  n.<listener>, err = <pkg>.Listen(...)  of package nsqd: the function it
+   is in, the enclosing condition, whether it is tls.Listen with n.tlsConfig *)
+Record http_listen := mkListen { hl_listener : string; hl_func : string; hl_cond : lexp; hl_tls : bool }.
+
+(* one  http_api.Serve(n.<listener>, <server>, ...)  of NSQD.Main: the listener of the
+   enclosing  if n.X != nil, the listener passed, and the listener of the block in which
+   the server variable passed was built by newHTTPServer *)
+Record http_serve := mkServe { hs_guard : string; hs_listener : string; hs_server_of : string }.
